@@ -532,6 +532,20 @@ func c09(c *core.Ctx) {
 				})
 			}
 			c.Check(isParsed(val), name+":mul-operand", mul.Pos(), "multiplicand is the parsed header number", "multiplicand is not the parsed header number")
+			// ... parsed as a signed 64-bit number: an unsigned parse converted to int64 wraps for values from 2^63 on,
+			// which the upper-bound test below (a signed comparison) then waves through as small or negative
+			wraps := false
+			for _, o := range core.Origins(val) {
+				cr, idx, ok := core.CallResult(o)
+				if !ok || idx != 0 || !core.InfoOf(&cr.Call).Is("strconv.ParseUint") {
+					continue
+				}
+				bits, isC := core.ConstInt(cr.Call.Args[len(cr.Call.Args)-1])
+				if !isC || bits == 0 || bits > 63 {
+					wraps = true
+				}
+			}
+			c.Check(!wraps, name+":parsed-as-signed-64", mul.Pos(), "the header number is parsed into the non-negative range of int64", "the header number is parsed with ParseUint at 64 bits and then used as a signed value: 9223372036854775808 and above wrap to negative (or small) numbers, pass the signed upper-bound test, and give a deadline that is already over, or far too short, instead of the saturated one")
 			guard := core.GuardedBy(mul, func(f core.Fact) bool {
 				if (f.Op != token.LEQ && f.Op != token.LSS) || !isParsed(f.X) {
 					return false
@@ -774,6 +788,10 @@ func c09(c *core.Ctx) {
 	// a cached header set carries the timeout of the call that built it, so a later call on the same context tells
 	// the server more time than the caller has left
 	c.Borrow("C01", map[string]string{"R1": "R6"}, c01)
+	// the deadline that is sent is the CALLER's: the context the timeout is computed from and the request is bound to
+	// descends from the caller's context through steps that keep its deadline and cancellation (C04/R3) — a credentials
+	// step that hands back a detached context (so that a slow token refresh is not cut short) sends no timeout at all
+	c.Borrow("C04", map[string]string{"R3": "R7"}, c04)
 }
 
 func stripCT(v ssa.Value) ssa.Value {
